@@ -11,8 +11,8 @@ import (
 
 func init() {
 	register(&PropDef{
-		ID:    "C13",
-		Level: "proof",
+		ID:          "C13",
+		Level:       "proof",
 		Explanation: "Lockset proof for the state guarded by the runner mutex: an interprocedural lock-state dataflow (lattice U<R<W, meet=min, one context per arising entry state, VTA call graph for callbacks) evaluates every access to runner/job/task state in the module; a read needs ≥R and a write needs W on every path in every context. Discharged = accesses whose lock state is sufficient in all contexts, or that fall under a listed exception whose side condition is machine-checked. Also: no re-entrant acquisition, no WaitGroup.Wait under the lock, balanced acquire/release on all exits, atomic-only fields. Outside the mutex (ownership rules, not a proof): the production data store and output store — called without the runner lock and concurrently — write no state reachable from their receiver; a slice field that is extended by append without being stored back is only ever assigned freshly allocated slices (no two executors of concurrently running tasks share a backing array).",
 		Trusted: []string{
 			"Go memory model for sync.RWMutex (lock-protected accesses are ordered)",
